@@ -30,6 +30,9 @@ def replace_chain(fn: ast.AST, folder: Folder) -> list[tuple[bytes, bytes]]:
             try:
                 a, b = folder.fold(e.args[0]), folder.fold(e.args[1])
             except Unfoldable as ex:
+                # loop variables of a table driven replace loop are resolved below
+                if isinstance(e.args[0], ast.Name) and isinstance(e.args[1], ast.Name):
+                    return
                 raise AnalysisError(f"replace() with non-constant arguments: {norm(e)} ({ex})")
             out.append((a, b, e.lineno))
             return
@@ -37,6 +40,21 @@ def replace_chain(fn: ast.AST, folder: Folder) -> list[tuple[bytes, bytes]]:
             visit(ch)
     for s in fn.body:
         visit(s)
+    # table driven form: `for a, b in TABLE: value = value.replace(a, b)` applies the pairs of the constant table in order
+    for lp in [x for x in ast.walk(fn) if isinstance(x, ast.For) and isinstance(x.target, ast.Tuple) and len(x.target.elts) == 2
+               and all(isinstance(t, ast.Name) for t in x.target.elts)]:
+        a_, b_ = (t.id for t in lp.target.elts)
+        uses = [c for c in ast.walk(lp) if isinstance(c, ast.Call) and isinstance(c.func, ast.Attribute) and c.func.attr == "replace" and len(c.args) == 2
+                and isinstance(c.args[0], ast.Name) and isinstance(c.args[1], ast.Name) and c.args[0].id == a_ and c.args[1].id == b_]
+        if not uses:
+            continue
+        try:
+            table = folder.fold(lp.iter)
+        except Unfoldable as ex:
+            raise AnalysisError(f"replace() table is not constant: {norm(lp.iter)} ({ex})")
+        out = [o for o in out if not (isinstance(o[0], str) and o[0] == "?")]
+        for pair in table:
+            out.append((pair[0], pair[1], lp.lineno))
     return out
 
 
@@ -225,7 +243,19 @@ def run(prog: Program, rep, tier="quick"):
                     Q_edge |= set(item if isinstance(item, bytes) else bytes([item]))
             except Unfoldable:
                 pass
-        # any(b in value for b in X)
+        # any(b in value for b in X): every element of the constant table X forces quoting wherever it occurs
+        if isinstance(x, ast.Call) and callee_name(x) == "any" and x.args and isinstance(x.args[0], (ast.GeneratorExp, ast.ListComp)) \
+                and len(x.args[0].generators) == 1 and isinstance(x.args[0].generators[0].target, ast.Name):
+            gen = x.args[0]
+            tv = gen.generators[0].target.id
+            e = gen.elt
+            if isinstance(e, ast.Compare) and len(e.ops) == 1 and isinstance(e.ops[0], ast.In) and isinstance(e.left, ast.Name) and e.left.id == tv \
+                    and isinstance(e.comparators[0], ast.Name) and e.comparators[0].id == val and not gen.generators[0].ifs:
+                try:
+                    for item in F.fold(gen.generators[0].iter):
+                        Q_any |= set(item if isinstance(item, bytes) else bytes([item]))
+                except (Unfoldable, TypeError):
+                    pass
     starts = {f.attr for c in ast.walk(fmt.node) if isinstance(c, ast.Call) and isinstance((f := c.func), ast.Attribute)
               and f.attr in ("startswith", "endswith")}
     if not Q_any and not Q_edge:
